@@ -45,6 +45,7 @@ type zzWire struct {
 	seq     int
 	payload byte
 	bad     bool
+	empty   bool // serialises to zero bytes (a message whose fields all have their default values)
 }
 
 type zzSer struct{}
@@ -55,6 +56,9 @@ func (zzSer) Serialize(m any) ([]byte, error) {
 	if w.bad {
 		return nil, errors.New("zz cannot serialise")
 	}
+	if w.empty {
+		return []byte{}, nil
+	}
 	return []byte{byte(w.seq), w.payload}, nil
 }
 
@@ -63,7 +67,7 @@ type zzWireDeser struct{}
 func (zzWireDeser) Deserialize(data []byte, tname string) (any, error) {
 	if len(data) != 2 {
 		// what an absent / empty message decodes to
-		return &zzWire{tname: tname, seq: -1}, nil
+		return &zzWire{tname: tname, seq: -1, empty: true}, nil
 	}
 	return &zzWire{tname: tname, seq: int(data[0]), payload: data[1]}, nil
 }
@@ -101,6 +105,9 @@ func ZZ_C15_RoundTrip() {
 		wm := &zzWire{tname: tnames[zzrt.Choose(2)], seq: i, payload: zzrt.NondetUint8("payload"), bad: zzrt.NondetBool("unserialisable")}
 		if wm.bad {
 			nbad++
+		} else if zzrt.NondetBool("emptyEncoding") {
+			wm.empty = true
+			zzrt.Reach("zero-length-payload")
 		}
 		sent = append(sent, sentRec{ti, snd, wm})
 		msgs[i] = actor.Envelope{Msg: &streamDeliver{target: actor.NewPID("node:B", tids[ti]), sender: snd, msg: wm}}
@@ -130,28 +137,46 @@ func ZZ_C15_RoundTrip() {
 	}
 	zzrt.Assert(len(pipe.envs) == 1, "C15:batch-not-sent-as-one-envelope")
 
-	// every delivery on the receiving node, in arrival order per target
+	// every delivery on the receiving node, in arrival order per target, against the serialisable messages
+	// sent to that target in send order
 	total := 0
 	for k, p := range procs {
-		last := -1
-		for _, g := range p.Got {
+		var want []sentRec
+		for _, s := range sent {
+			if s.target == k && !s.w.bad {
+				want = append(want, s)
+			}
+		}
+		for j, g := range p.Got {
 			total++
 			got, ok := g.Msg.(*zzWire)
 			zzrt.Assert(ok, "C15:delivered-something-else")
 			if !ok {
 				continue
 			}
-			if got.seq < 0 || got.seq >= n {
-				zzrt.Fail("C15:delivered-a-message-that-was-never-sent")
+			if j >= len(want) {
+				if nbad > 0 {
+					zzrt.Fail("C15:unserialisable-message-affects-rest-of-batch")
+				}
+				zzrt.Fail("C15:delivered-to-wrong-target-or-duplicated")
 			}
-			s := sent[got.seq]
-			if s.w.bad {
-				zzrt.Fail("C15:unserialisable-message-delivered")
+			s := want[j]
+			if s.w.empty {
+				zzrt.Assert(got.empty, "C15:reordered-or-wrong-target")
+			} else {
+				if got.seq != s.w.seq {
+					// which kind of mix-up?
+					if got.seq >= 0 && got.seq < n && sent[got.seq].w.bad {
+						zzrt.Fail("C15:unserialisable-message-delivered")
+					}
+					if got.seq >= 0 && got.seq < n && sent[got.seq].target != k {
+						zzrt.Fail("C15:delivered-to-wrong-target")
+					}
+					zzrt.Fail("C15:reordered-or-duplicated-or-lost")
+				}
+				zzrt.Assert(got.payload == s.w.payload, "C15:payload-or-type-changed")
 			}
-			zzrt.Assert(s.target == k, "C15:delivered-to-wrong-target")
-			zzrt.Assert(got.seq > last, "C15:reordered-or-duplicated")
-			last = got.seq
-			zzrt.Assert(got.payload == s.w.payload && got.tname == s.w.tname, "C15:payload-or-type-changed")
+			zzrt.Assert(got.tname == s.w.tname, "C15:payload-or-type-changed")
 			if s.sender == nil {
 				zzrt.Assert(g.Sender == nil, "C15:message-without-sender-arrives-with-one")
 			} else {
@@ -160,6 +185,9 @@ func ZZ_C15_RoundTrip() {
 					zzrt.Assert(g.Sender.Address == s.sender.Address && g.Sender.ID == s.sender.ID, "C15:arrives-with-a-different-sender")
 				}
 			}
+		}
+		if len(p.Got) < len(want) && nbad == 0 {
+			zzrt.Fail("C15:message-lost")
 		}
 	}
 	if nbad > 0 {
